@@ -478,9 +478,13 @@ def g_adopt(a):
 
 def g_case(w, trace, fx):
     ids = idents(w)
+    refused = {str(k) for k in (trace.get("refused") or {})}
     jobs = []
     for j, spec in enumerate(w["jobs"]):
         deps = trace["deps"][j] or []
+        if str(j) in refused:
+            # the Job object of a refused submission is gone: its requests are those of the description
+            deps = [["tok", t, c] for t, c in spec.get("toks", [])]
         jobs.append(f"{{| j_deps := {glist(g_dep(d) for d in deps)}; j_code := {gz(spec['code'])}; "
                     f"j_marker := {gbool(spec['marker'])}; j_ident := {ids[j]}%nat; j_adopt := {g_adopt(spec.get('adopt'))} |}}")
     W = f"{{| w_jobs := {glist(jobs)}; w_tokens := {glist(str(t) + '%nat' for t in w['tokens'])} |}}"
@@ -488,7 +492,8 @@ def g_case(w, trace, fx):
          f"fx6 := {gbool(fx[3])} |}}")
     # (a refused submission changes nothing in the scheduler: it is not a step of the model)
     tr = glist(f"({g_action(s['act'])}, {g_snap(s['snap'])})" for s in trace["steps"] if s["act"][0] != "refused")
-    return f"{{| c_w := {W}; c_fx := {F}; c_trace := {tr} |}}"
+    R = glist(f"{int(k)}%nat" for k in sorted(refused, key=int))
+    return f"{{| c_w := {W}; c_fx := {F}; c_trace := {tr}; c_refused := {R} |}}"
 
 
 CORR_HEADER = ("From Coq Require Import ZArith List Bool.\nFrom XV Require Import model.Sched corr.SchedCorr.\n"
